@@ -594,17 +594,18 @@ pub fn term(seed: u64, out: &mut Outcome) {
         let l = &o.led[node];
         let sn = sim.snap(node, ch);
         // --- at most once / never for a local close
+        // (the recorded findings that involve `Reset` are tied to a stateless reset really handled: lostkeys.rs)
+        let resets = sim.ledger.stateless_resets_handled(node, ch);
         if lost.len() > 1 {
-            let kinds: Vec<String> = lost.iter().map(|x| kind_of(x)).collect();
-            sim.fail(&format!("lost-reported-twice:{}", kinds.join("+")), format!("node {node}: {lost:?}"));
+            sim.fail(&crate::lostkeys::twice_key(&lost, resets), format!("node {node}: {lost:?} (stateless resets of the peer endpoint handled: {resets})"));
         }
         if drained_events > 1 {
             sim.fail("drain-notified-twice", format!("node {node} conn {ch}"));
         }
         let local_first = l.local_close_at.is_some() && l.local_close_at == l.left_open_at;
         if local_first && !lost.is_empty() {
-            let k = if lost[0].contains("Reset") { "lost-after-local-close:reset" } else { "lost-after-local-close:other" };
-            sim.fail(k, format!("node {node} closed locally at {:?} yet polled {lost:?}", l.local_close_at));
+            let k = crate::lostkeys::after_local_close_key(&lost[0], resets, "lost-after-local-close:other");
+            sim.fail(k, format!("node {node} closed locally at {:?} yet polled {lost:?} (stateless resets of the peer endpoint handled: {resets})", l.local_close_at));
         }
         // --- at least once, and which reason
         // ended = the Drained endpoint event was emitted (the harness saw it), not merely the connection's own state
